@@ -666,6 +666,57 @@ func TestSharedSubvalues(t *testing.T) {
 	evid.Exhaustive("leaf kind x shape with one collection on two paths x use", n)
 }
 
+// TestCollectionVariableNames: a list or map is read and written through its variable whatever the variable is
+// called: `_` (the spelling of the variable message), message, a back-quoted name, the name of a point key.
+func TestCollectionVariableNames(t *testing.T) {
+	n := 0
+	for _, name := range []string{"_", "message", "a b", "k1", "é", "l"} {
+		for _, mk := range []func() *gen.Node{
+			func() *gen.Node { return gen.NList(gen.NInt(1), gen.NInt(2), gen.NInt(3)) },
+			func() *gen.Node { return gen.NMap(gen.NStr("k"), gen.NList(gen.NInt(1))) },
+		} {
+			coll := mk()
+			var key, key2 *gen.Node
+			if coll.Kind == gen.List {
+				key, key2 = gen.NInt(0), gen.NInt(-1)
+			} else {
+				key, key2 = gen.NStr("new"), gen.NStr("k")
+			}
+			for form := 0; form < 5; form++ {
+				prog := []*gen.Node{gen.NSet(name, coll.Clone())}
+				switch form {
+				case 0:
+					prog = append(prog, gen.NAssign("=", []*gen.Node{gen.NIndex(id(name), key.Clone())}, []*gen.Node{gen.NInt(9)}))
+				case 1:
+					if coll.Kind == gen.List {
+						prog = append(prog, gen.NAssign("+=", []*gen.Node{gen.NIndex(id(name), key2.Clone())}, []*gen.Node{gen.NInt(5)}))
+					} else {
+						prog = append(prog, gen.NAssign("+=", []*gen.Node{gen.NIndex(id(name), key2.Clone(), gen.NInt(0))}, []*gen.Node{gen.NInt(5)}))
+					}
+				case 2: // written through the other spelling of the same variable
+					other := name
+					if name == "_" {
+						other = "message"
+					} else if name == "message" {
+						other = "_"
+					}
+					prog = append(prog, gen.NAssign("=", []*gen.Node{gen.NIndex(id(other), key.Clone())}, []*gen.Node{gen.NStr("w")}))
+				case 3: // inside a block
+					prog = append(prog, gen.NIf([]*gen.Node{gen.NBool(true)}, [][]*gen.Node{{gen.NAssign("=", []*gen.Node{gen.NIndex(id(name), key.Clone())}, []*gen.Node{gen.NInt(9)})}}, nil, false))
+				default: // through an alias
+					prog = append(prog, gen.NSet("al", id(name)), gen.NAssign("=", []*gen.Node{gen.NIndex(id("al"), key.Clone())}, []*gen.Node{gen.NInt(9)}))
+				}
+				prog = append(prog, gen.NCall("probe", gen.NStr("r"), id(name), gen.NIndex(id(name), key.Clone()), gen.NCall("len", id(name))), gen.NCall("add_key", id("snap"), id(name)))
+				c := sem.NewCase(gen.FixAll(prog))
+				c.Fields = map[string]any{"message": "the point's message", "k1": int64(5)}
+				judge(t, "varnames", c, fmt.Sprintf("varnames/%s/%s/%d", name, coll.Kind, form), true, "collection-variable-names")
+				n++
+			}
+		}
+	}
+	evid.Exhaustive("variable name x {list, map} x {write, compound write, other spelling, in a block, through an alias}", n)
+}
+
 // TestCollectionsOutliveTheirBlock: a list or map created under a block-local name and stored into an outer
 // container (or assigned to an outer variable, or aliasing an outer list) stays what it is after the block has
 // ended, whatever collections are created afterwards.
